@@ -352,6 +352,69 @@ func skipEdges(ep *entryPoint) (edges []sx.Edge, perNodeCalls []*ssa.Call) {
 			}
 		}
 	})
+	// an untyped nil result is "no message" as well: the nil edge of a comparison of the per-node
+	// result with nil (the validity test stays necessary: validEdges)
+	sx.AllInstrs(ep.fn, func(_ sx.Node, in ssa.Instruction) {
+		ifi, ok := in.(*ssa.If)
+		if !ok {
+			return
+		}
+		v, pos := condOf(ifi)
+		b, ok := v.(*ssa.BinOp)
+		if !ok || (b.Op != token.EQL && b.Op != token.NEQ) {
+			return
+		}
+		x, y := b.X, b.Y
+		if k, isK := x.(*ssa.Const); isK && k.IsNil() {
+			x, y = y, x
+		}
+		if k, isK := y.(*ssa.Const); !isK || !k.IsNil() {
+			return
+		}
+		for _, pc := range perNodeCalls {
+			if x == ssa.Value(pc) {
+				t, f := sx.CondEdges(ifi)
+				if !pos {
+					t, f = f, t
+				}
+				if b.Op == token.EQL {
+					edges = append(edges, t)
+				} else {
+					edges = append(edges, f)
+				}
+			}
+		}
+	})
+	return
+}
+
+// validEdges: the edges on which the per-node result was seen to be a valid message.
+func validEdges(ep *entryPoint) (edges []sx.Edge, perNodeBlocks map[*ssa.BasicBlock]bool) {
+	_, perNodeCalls := skipEdges(ep)
+	perNodeBlocks = map[*ssa.BasicBlock]bool{}
+	for _, pc := range perNodeCalls {
+		perNodeBlocks[pc.Block()] = true
+	}
+	sx.AllInstrs(ep.fn, func(_ sx.Node, in ssa.Instruction) {
+		ifi, ok := in.(*ssa.If)
+		if !ok {
+			return
+		}
+		v, _ := condOf(ifi)
+		c, ok := v.(*ssa.Call)
+		if !ok || !c.Call.IsInvoke() || c.Call.Method.Name() != "IsValid" {
+			return
+		}
+		pr, ok := c.Call.Value.(*ssa.Call)
+		if !ok || !pr.Call.IsInvoke() || pr.Call.Method.Name() != "ProtoReflect" {
+			return
+		}
+		for _, pc := range perNodeCalls {
+			if pr.Call.Value == pc {
+				edges = append(edges, edgeWhere(ifi, true))
+			}
+		}
+	})
 	return
 }
 
